@@ -15,7 +15,7 @@
     the correspondence on every run.  C04_summary_of_opt_record says which record those OPT values come
     from: the one OPT record of the declarative reading of the three record sections. *)
 From DV Require Import Model.Base Model.Parser Model.Header Model.Readers Spec.NameSpec Spec.RecordSpec Proofs.Hoare Proofs.HeaderBits
-  Proofs.SummaryBits Proofs.ReadersLabels Proofs.QuestionSpec Proofs.EdnsFacts Proofs.WalkSkip Proofs.EdnsPlain Spec.PacketSpec Proofs.HeaderFields.
+  Proofs.SummaryBits Proofs.ReadersLabels Proofs.QuestionSpec Proofs.EdnsFacts Proofs.WalkSkip Proofs.EdnsPlain Spec.PacketSpec Proofs.HeaderFields Model.NameCheck Model.Uncompress Model.Mutate Model.Gen Proofs.NameText Proofs.QueryFresh.
 Local Open Scope N_scope.
 
 Theorem C04_flags_word : forall w x i, w < 65536 ->
@@ -87,3 +87,28 @@ Print Assumptions C04_id_opcode_rcode.
 
 Example C04_getters_on_the_object : forall v, pp_tid v = pk_tid (pp_packet v) /\ pp_rcode v = pk_rcode (pp_packet v) /\ pp_opcode v = pk_opcode (pp_packet v).
 Proof. intros. repeat split. Qed.
+
+(** the same on SYNTHESISED queries (the object gen::query returns, class IN): the four getters, cache empty and filled, return the
+    labels of the text - wire form, wire form without the root, lower-cased dotted text - with the type and class given
+    (Proofs/QueryFresh.v; the repair a97c4c2 of /repo made the text's labels labels of the parser's policy) *)
+Theorem C04_query_getters : forall tid name qt v, (tid < 65536)%N -> (qt < 65536)%N -> gen_query tid name qt CLASS_IN = Ok v ->
+  exists ls, Forall label_ok ls /\ (name = dotted ls \/ name = dots ls \/ (name = [46%N] /\ ls = [])) /\
+    let wire := wire_of_labels ls in
+    let v' := pp_with_cached v (Some (wire, qt, CLASS_IN)) in
+    pp_question_raw0 v = Ok (v', Some (wire, qt, CLASS_IN)) /\
+    pp_question_raw v = Ok (v', Some (labels_flat ls, qt, CLASS_IN)) /\
+    pp_question v = Ok (Some (ascii_lowercase (dotted ls), qt, CLASS_IN)) /\
+    pp_qtype_qclass v = Ok (Some (qt, CLASS_IN)) /\
+    pp_question_raw0 v' = Ok (v', Some (wire, qt, CLASS_IN)) /\
+    pp_question_raw v' = Ok (v', Some (labels_flat ls, qt, CLASS_IN)) /\
+    pp_question v' = Ok (Some (ascii_lowercase (dotted ls), qt, CLASS_IN)) /\
+    pp_qtype_qclass v' = Ok (Some (qt, CLASS_IN)).
+Proof. exact query_getters. Qed.
+Print Assumptions C04_query_getters.
+
+Example C04_query_getters_run :
+  match gen_query 7 [87; 119; 119; 46; 65]%N 28 CLASS_IN with
+  | Ok v => pp_question v
+  | _ => Err InvalidPacket
+  end = Ok (Some ([119; 119; 119; 46; 97]%N, 28%N, CLASS_IN)).
+Proof. vm_compute. reflexivity. Qed.
